@@ -401,7 +401,7 @@ class C15(Prop):
         n_msa = 5000 if quick else 60000
         n_wuss = 1500 if quick else 30000
         for i in range(n_msa): out.append(self.msa_case(rng, i, big=(i % 5 == 0)))
-        for i in range(n_wuss): out.append(self.wuss_case(rng, i, 300 if (quick and i % 15) else 2000))
+        for i in range(n_wuss): out.append(self.wuss_case(rng, i, 300 if (quick and i % 6) else 2000))
         hist = {}
         for c in out:
             for o in c["ops"]:
@@ -440,6 +440,9 @@ class C15(Prop):
                     prevA, A = A, d
                     A.line = l
                     if pending and pending[0][0] not in ("seqsubset", "clone", "copy", "markfrag"): pending = None
+                if f: return f
+            elif name == "markfrag" and l.startswith("ok frag=") and A is not None:
+                f = self.check_markfrag(A, kv["t"], l[8:])
                 if f: return f
             elif name == "fetch":
                 cur = B if kv.get("w") == "b" else A
@@ -513,6 +516,22 @@ class C15(Prop):
             if l.startswith("ok ss="):
                 r = unhx(l[6:])
                 if wuss_pairs(r) != wuss_pairs(ss): return Failure("monitor", "esl_wuss_full changes the pairs of %r" % ss)
+        return None
+
+    def check_markfrag(self, d, tbits, bits):
+        """esl_msa_MarkFragments: fragment iff (last residue - first residue + 1) < ceil(fragthresh * alen), product in binary32"""
+        import math
+        t = struct.unpack("<f", struct.pack("<I", int(tbits, 16)))[0]
+        prod = struct.unpack("<f", struct.pack("<f", t * float(d.alen)))[0]     # exact double product of two binary32, rounded once
+        minspan = int(math.ceil(prod))
+        want = ""
+        for i in range(d.nseq):
+            r = d.sq[i]["row"]
+            isres = [(is_residue_code(d.abc, x) if d.digital else (chr(x).isalpha() and x < 128)) for x in r]
+            idx = [k for k, b in enumerate(isres) if b]
+            span = (idx[-1] - idx[0] + 1) if idx else (0 - (d.alen + 1) + 1 if d.digital else (-1 - d.alen + 1))
+            want += "1" if span < minspan else "0"
+        if want != bits: return Failure("monitor", "esl_msa_MarkFragments(thresh=%r): got %s, the span rule gives %s" % (t, bits, want))
         return None
 
     def check_fetch(self, d, i, l):
